@@ -108,8 +108,12 @@ class Program:
                 self.trees[name] = ast.parse(sources[name], filename=name)
             except SyntaxError as e:
                 raise AnalysisError(f"syntax error in {name}: {e}")
-            if normalise_aliases:
-                from .normalise import normalise
+        self.inlined = []
+        if normalise_aliases:
+            from .inline import inline_new_helpers
+            from .normalise import normalise
+            self.inlined = inline_new_helpers(self.trees)
+            for name in self.trees:
                 self.n_aliases = getattr(self, "n_aliases", 0) + normalise(self.trees[name])
         self.classes = {}  # name -> (ClassDef, module)
         self.module_funcs = {}  # (module, name) -> FunctionDef
@@ -137,7 +141,7 @@ class Program:
             if isinstance(n, ast.ClassDef):
                 self._h[n.name] = [b.attr if isinstance(b, ast.Attribute) else getattr(b, "id", "?") for b in n.bases]
         self._cache = {}
-        self.stats = {"aliases_propagated": getattr(self, "n_aliases", 0), "functions": len(self.functions), "classes": len(self.classes),
+        self.stats = {"aliases_propagated": getattr(self, "n_aliases", 0), "helpers_inlined": self.inlined, "functions": len(self.functions), "classes": len(self.classes),
                       "modules": sorted(self.trees), "ast_nodes": len(self.parent) + len(self.trees)}
 
     @classmethod
@@ -151,6 +155,17 @@ class Program:
         return cls(out)
 
     # ---- names
+    def module_level_names(self, mod):
+        """names bound by plain assignments at module level (candidates for process-wide state)"""
+        key = ("mln", mod)
+        if key not in self._cache:
+            out = set()
+            for n in self.trees[mod].body:
+                if isinstance(n, ast.Assign):
+                    out |= {t.id for t in n.targets if isinstance(t, ast.Name)}
+            self._cache[key] = out
+        return self._cache[key]
+
     def qualname(self, fn):
         parts = []
         n = fn
